@@ -311,7 +311,7 @@ pub fn run_c09(cx: &Cx) -> PropResult {
     PropResult::new(
         acc,
         "exploration",
-        "cases = write sequences over a six-string alphabet (empty, ASCII, non-ASCII, long, one equal to a removed field's name): (i) flat streams of 0-40 (dedup | plain | time-zone) writes into one SerializationContext (zone names also occur as deduplicated and as plain strings); (ii) tuples, Vec<DS>, Option/Result/LinkedList of DS; (iii) DS fields of version-0 records; (iv) DS fields of evolved records whose header carries 1-2 removed/transient names, nested in each other and repeated in a Vec so that the second instance's header names are back-references; plus run-time generated declarations with DS fields, and every declaration of the compiled batch (real derive-macro code) that contains a DS anywhere inside; 1-3 values back to back. Oracles: decode == strings written; stream byte-identical to the model (ids from 1 in first-occurrence order, header names before field strings, every repeat exactly zigzag_varint(-id), first occurrences as plain strings); flat streams without repeats identical to the all-plain stream; a rewritten back-reference to an id never introduced (introduced+1, i32::MIN, introduced+1000) decodes to Err(InvalidStringId); so does a forward reference (the first header name of a top-level evolved record rewritten as a back-reference to the id it would get). Also graphs of tracked objects whose bodies carry deduplicated tags (the codec and byte model of C10): string ids are 1, 2, 3 ... in first-occurrence order whatever numbers the objects take. Same definition on both sides. Non-trivial = at least one repeat and a first occurrence after a repeat.",
+        "cases = write sequences over a six-string alphabet (empty, ASCII, non-ASCII, long, one equal to a removed field's name): (i) flat streams of 0-40 (dedup | plain | time-zone) writes into one SerializationContext (zone names also occur as deduplicated and as plain strings); (ii) tuples, Vec<DS>, Option/Result/LinkedList of DS; (iii) DS fields of version-0 records; (iv) DS fields of evolved records whose header carries 1-2 removed/transient names, nested in each other and repeated in a Vec so that the second instance's header names are back-references; plus run-time generated declarations with DS fields, and every declaration of the compiled batch (real derive-macro code) that contains a DS anywhere inside; 1-3 values back to back. Oracles: decode == strings written; stream byte-identical to the model (ids from 1 in first-occurrence order, header names before field strings, every repeat exactly zigzag_varint(-id), first occurrences as plain strings); flat streams without repeats identical to the all-plain stream; a rewritten back-reference to an id never introduced (introduced+1, i32::MIN, introduced+1000) decodes to Err(InvalidStringId); so does a forward reference (the first header name of a top-level evolved record rewritten as a back-reference to the id it would get). Also graphs of tracked objects whose bodies carry deduplicated tags (the codec and byte model of C10): string ids are 1, 2, 3 ... in first-occurrence order whatever numbers the objects take. Tables of 60-70 and 8188-8198 distinct strings followed by repeats of the empty and of a one-byte string (back-references that take more bytes than the string), and one string of 40 000-70 000 bytes written 41-131 times. Same definition on both sides. Non-trivial = at least one repeat and a first occurrence after a repeat.",
     )
 }
 
